@@ -9,8 +9,9 @@ Spec (one screen, written without looking at the code):
 * `Res.diverges r`  : the call never returns.
 * `Safe m`          : from every context state, `m` does not let a non-ParseError exception out.
 * `Term m`          : from every context state, `m` returns or raises.
-* `BodyAfterParse`, `InstanceAfterParse` (Props/C04.lean): trace properties for "the body is not
-  entered" / "no instance is populated" when parsing failed.
+* `Quiet m`         : `m` appends nothing to the event trace (components are assumed quiet: only the entry points
+  emit `enterBody` / `attrsSet` / `postInit`), used for the trace statements "the body is entered / attributes are
+  set only after a successful parse" (Props/C04.lean).
 -/
 namespace Utv.C04
 
@@ -213,7 +214,7 @@ theorem term_enterCheck {V : Type} (W : World V) (r : Nat) : Term (enterCheck W 
   · exact term_raise _
   · exact term_pure _
 
-theorem term_getItem {V : Type} (W : World V) (v : V) (i : Nat) : Term (getItem W v i) := by
+theorem term_getItem {V : Type} (W : World V) (v : V) (xs : List V) (i : Nat) : Term (getItem W v xs i) := by
   unfold getItem
   split
   · exact term_raise _
@@ -221,10 +222,101 @@ theorem term_getItem {V : Type} (W : World V) (v : V) (i : Nat) : Term (getItem 
     · exact term_pure _
     · exact term_raise _
 
+/-! ### Quiet: nothing is appended to the event trace -/
+
+structure Quiet {α : Type} (m : M α) : Prop where
+  h : ∀ s, (m s).2.trace = s.trace
+
+theorem quiet_pure (a : α) : Quiet (pure a : M α) := ⟨fun _ => rfl⟩
+
+theorem quiet_bind {m : M α} {f : α → M β} (hm : Quiet m) (hf : ∀ a, Quiet (f a)) : Quiet (m >>= f) := by
+  constructor
+  intro s
+  rw [bind_apply]
+  have h := hm.h s
+  rcases hms : m s with ⟨r, s'⟩
+  rw [hms] at h
+  cases r with
+  | ok a => simp only; rw [(hf a).h s']; exact h
+  | raise e => exact h
+  | diverge => exact h
+
+theorem quiet_raise (e : Exc) : Quiet (raise e : M α) := ⟨fun _ => rfl⟩
+
+theorem quiet_tryExcept {m : M α} {h : Exc → M α} (hm : Quiet m) (hh : ∀ e, Quiet (h e)) :
+    Quiet (tryExcept m h) := by
+  constructor
+  intro s
+  unfold tryExcept
+  have h1 := hm.h s
+  rcases hms : m s with ⟨r, s'⟩
+  rw [hms] at h1
+  cases r with
+  | ok a => exact h1
+  | raise e => simp only; rw [(hh e).h s']; exact h1
+  | diverge => exact h1
+
+theorem quiet_tryExceptIf {p : Exc → Bool} {m : M α} {h : Exc → M α} (hm : Quiet m) (hh : ∀ e, Quiet (h e)) :
+    Quiet (tryExceptIf p m h) := by
+  constructor
+  intro s
+  unfold tryExceptIf
+  have h1 := hm.h s
+  rcases hms : m s with ⟨r, s'⟩
+  rw [hms] at h1
+  cases r with
+  | ok a => exact h1
+  | raise e =>
+    by_cases hp : p e
+    · simp only [hp, if_true]; rw [(hh e).h s']; exact h1
+    · simp only [hp]; exact h1
+  | diverge => exact h1
+
+theorem quiet_handleError (o : Opts) (e : Exc) (force : Bool) : Quiet (handleError o e force) := by
+  constructor
+  intro s
+  unfold handleError
+  dsimp only
+  split
+  · rfl
+  · split
+    · split <;> rfl
+    · rfl
+
+theorem quiet_raiseError : Quiet raiseError := by
+  constructor
+  intro s
+  unfold raiseError
+  split <;> rfl
+
+theorem quiet_collectTmp (e : Exc) : Quiet (collectTmp e) := ⟨fun _ => rfl⟩
+theorem quiet_clearTmp : Quiet clearTmp := ⟨fun _ => rfl⟩
+
+theorem quiet_isolated {m : M α} (hm : Quiet m) : Quiet (isolated m) := by
+  constructor
+  intro s
+  unfold isolated
+  exact hm.h _
+
+theorem quiet_enterCheck {V : Type} (W : World V) (r : Nat) : Quiet (enterCheck W r) := by
+  unfold enterCheck
+  split
+  · exact quiet_raise _
+  · exact quiet_pure _
+
+theorem quiet_getItem {V : Type} (W : World V) (v : V) (xs : List V) (i : Nat) : Quiet (getItem W v xs i) := by
+  unfold getItem
+  split
+  · exact quiet_raise _
+  · split
+    · exact quiet_pure _
+    · exact quiet_raise _
+
 /-! ### automation: peel one constructor of a `do` block -/
 
 macro "safe_step" : tactic => `(tactic| first
   | assumption
+  | exact ‹∀ s, Safe (World.warn _ s)› _
   | exact safe_pure _
   | exact safe_raiseError
   | exact safe_clearTmp
@@ -253,7 +345,7 @@ macro "term_step" : tactic => `(tactic| first
   | exact term_enterCheck _ _
   | exact term_handleError _ _ _
   | exact term_raise _
-  | exact term_getItem _ _ _
+  | exact term_getItem _ _ _ _
   | apply term_isolated
   | apply term_tryExcept
   | apply term_tryExceptIf
@@ -264,5 +356,25 @@ macro "term_step" : tactic => `(tactic| first
   | dsimp only)
 
 macro "term_auto" : tactic => `(tactic| repeat' term_step)
+
+macro "quiet_step" : tactic => `(tactic| first
+  | assumption
+  | exact quiet_pure _
+  | exact quiet_raiseError
+  | exact quiet_clearTmp
+  | exact quiet_collectTmp _
+  | exact quiet_enterCheck _ _
+  | exact quiet_handleError _ _ _
+  | exact quiet_raise _
+  | exact quiet_getItem _ _ _ _
+  | apply quiet_isolated
+  | apply quiet_tryExcept
+  | apply quiet_tryExceptIf
+  | apply quiet_bind
+  | intro _
+  | split
+  | dsimp only)
+
+macro "quiet_auto" : tactic => `(tactic| repeat' quiet_step)
 
 end Utv.C04
